@@ -12,8 +12,9 @@ to header+body), a bigger one gets a new buffer into which the header bytes are 
 
 `P.hs`, `P.scratch`, `P.maxIn`, `P.mx` are the compiled values of `GetHeaderSize()`, the scratch
 buffer size, `_maxIncomingMessageSize` and `MUSCLE_MAX_MESSAGE_NESTING_DEPTH` (parameters: the
-theorems hold for all values with `8 ≤ hs ≤ scratch`).  `P.inflate` stands for zlib: the
-body of a frame whose encoding id is one of the zlib ids goes through it (`none` = error).
+theorems hold for all values with `8 ≤ hs ≤ scratch`).  `P.deflate`/`P.inflate` stand for zlib (an opaque
+pair of functions; the theorems assume only `inflate (deflate x) = x`): the body of a frame whose encoding id
+is one of the zlib ids goes through `inflate` (`none` = error).
 -/
 
 namespace Muscle.Gateway
@@ -24,25 +25,37 @@ structure BinParams where
   scratch : Nat
   maxIn : Nat
   mx : Nat
+  /-- zlib, sending side: compression level 1..9 → flattened Message → what `ZLibCodec::Deflate` returns -/
+  deflate : Nat → Bytes → Bytes
+  /-- zlib, receiving side: encoding id → frame body → the inflated bytes (`none` = error) -/
   inflate : Nat → Bytes → Option Bytes
 
+/-- header {body length, encoding id} + body -/
+def frameOf (enc : Nat) (body : Bytes) : Bytes :=
+  le32 body.length ++ (le32 enc ++ body)
+
 /-- `FlattenHeaderAndMessage`, default encoding -/
-def frame (m : Msg) : Bytes :=
-  le32 (encode m).length ++ (le32 encodingDefault ++ encode m)
+def frame (m : Msg) : Bytes := frameOf encodingDefault (encode m)
+
+/-- `FlattenHeaderAndMessage` with `_outgoingEncoding = MUSCLE_MESSAGE_ENCODING_DEFAULT + lvl`: a buffer of at least 32 bytes
+    (header included) goes through the codec and is flagged with the zlib encoding id, a smaller one is sent plain -/
+def frameZ (P : BinParams) (lvl : Nat) (m : Msg) : Bytes :=
+  if lvl ≠ 0 ∧ 32 ≤ P.hs + (encode m).length then frameOf (encodingDefault + lvl) (P.deflate lvl (encode m))
+  else frame m
 
 structure BinTx where
   cur : Bytes          -- `_sendBuffer`: the bytes from `_offset` on ([] = no buffer)
   queue : List Msg     -- `_outgoingMessages`
 
 /-- top of the `DoOutputImplementation` loop: no buffer ⇒ pop the next Message and flatten it -/
-def binSettle (t : BinTx) : BinTx × Bool :=
+def binSettle (P : BinParams) (lvl : Nat) (t : BinTx) : BinTx × Bool :=
   match t.cur, t.queue with
-  | [], m :: r => ({ cur := frame m, queue := r }, false)
+  | [], m :: r => ({ cur := frameZ P lvl m, queue := r }, false)
   | _, _ => (t, false)
 
-def binTx : TxM BinTx where
+def binTx (P : BinParams) (lvl : Nat) : TxM BinTx where
   zeroStops := true
-  settle := binSettle
+  settle := binSettle P lvl
   cur := fun t => t.cur
   advance := fun t n => { t with cur := t.cur.drop n }
   again := fun a n => n == a      -- `SendMoreData` returns B_ERROR on a short write
@@ -98,8 +111,8 @@ def binRx (P : BinParams) : RxM BinRx Msg where
   onRead := binOnRead P
   again := fun s a n => n == a && !s.err   -- `ReceiveMoreData` returns B_ERROR on a short read; an error ends the loop
 
-def binGw (P : BinParams) : Gw BinTx BinRx Msg Msg where
-  tx := binTx
+def binGw (P : BinParams) (lvl : Nat) : Gw BinTx BinRx Msg Msg where
+  tx := binTx P lvl
   rx := binRx P
   enqueue := fun t m => { t with queue := t.queue ++ [m] }
   txFuel := fun t c => callFuel c.grants (t.queue.length + 1)
